@@ -78,7 +78,7 @@ def call_tree(ctx, pid, ints=None, floor_note=True):
             if status == "same":
                 ctx.ok("fn:%s" % q, nontrivial=True)
             elif status == "differs":
-                for d in details[:3]:
+                for d in (details[:1] if details and details[0][0] in ("state", "source") else details[:3]):
                     ctx.bad("fn:%s:%s" % (q.split(".", 1)[-1], d[1]), where,
                             "%s computes `%s` where the reviewed tree computes `%s`" % (q, (d[3] or "")[:260], (d[2] or "")[:260]))
             else:
